@@ -156,6 +156,11 @@ class Transform(Family):
                 obj.sample_size = 2 if obj.pdimension == 3 else 3
                 ev_before = [[list(p) for p in obj.evalpts]]
             res = self._apply(c, obj)
+            if not c["inplace"] and not c["warm"]:
+                # cold caches: read the INPUT's views before anything of the result is read (a copy sharing a cache object with its
+                # source would now serve the input's views to the result)
+                for g in _elements(obj):
+                    _ = (g.ctrlpts, g.weights if g.rational else None, g.bbox)
             after = _snapshot(obj)
             r_el, o_el = _elements(res), _elements(obj)
             out = {"same": res is obj, "elem_same": [a is b for a, b in zip(r_el, o_el)], "n_elems": len(r_el),
@@ -182,8 +187,12 @@ class Transform(Family):
             if not c["inplace"] and not out["same"]:
                 # a later in-place edit of the result must not reach the input
                 dim_ = c["shapes"][0]["dim"]
+                # read every view of the input first: a copy that shares hidden state with its source would pick it up
+                for g in o_el:
+                    _ = (g.ctrlpts, g.bbox, g.weights if g.rational else None)
                 operations.translate(res, [1.0] * dim_, inplace=True)
                 out["input_unchanged_after_edit"] = _snapshot(obj) == before
+                out["result_after_edit"] = [[list(p) for p in g.ctrlpts] for g in _elements(res)]
             return out
         return call(f)
 
@@ -288,6 +297,12 @@ class Transform(Family):
                         tag, k, p, got, [float(x) for x in exp])
         if not c["inplace"] and o.get("input_unchanged_after_edit") is False:
             return "%s-aliasing: an in-place edit of the returned object changed the input object" % tag
+        if not c["inplace"] and "result_after_edit" in o:
+            # the returned copy, translated in place by (1,..,1) after the input's views were read, must be its own control points + 1
+            for k, (el, aft) in enumerate(zip(o["elems"], o["result_after_edit"])):
+                exp_pts = [[x + 1.0 for x in p] for p in el["ctrlpts"]]
+                if not gc.closel(aft, exp_pts):
+                    return "%s-copy-independent: after reading the input's views, an in-place translation of the returned copy does not move the copy's own control points (element %d): the copy shares hidden state with its source" % (c["op"], k)
         if c["warm"] and o.get("evalpts_before") is not None:
             for k, (bef, aft, inp) in enumerate(zip(o["evalpts_before"], o["evalpts_after"], o["input_evalpts_after"])):
                 if len(bef) != len(aft):
